@@ -27,6 +27,24 @@ def is_covered_by(op: Operation, sync_op: Operation) -> bool:
     return False
 
 
+def innermost_common_for(a: Operation, b: Operation) -> scf.ForOp | None:
+    """
+    The innermost scf.for that contains both operations: its back edge leads
+    from the later of the two operations to the earlier one.
+    """
+    ancestors_of_b: list[Operation] = []
+    parent = b.parent_op()
+    while parent is not None:
+        ancestors_of_b.append(parent)
+        parent = parent.parent_op()
+    parent = a.parent_op()
+    while parent is not None:
+        if isinstance(parent, scf.ForOp) and parent in ancestors_of_b:
+            return parent
+        parent = parent.parent_op()
+    return None
+
+
 class InsertSyncBarrier(ModulePass):
     """This pass inserts  snax synchronisation barriers in a program.
     Synchronisation barriers are required when data is shared between
@@ -66,17 +84,13 @@ class InsertSyncBarrier(ModulePass):
 
                     if dispatch_to_dm(op_in_module, ctx) and not dispatch_to_dm(op_use.operation, ctx):
                         ops_to_sync.append(op_use.operation)
-                        if op_in_module.parent_op() == op_use.operation.parent_op() and isinstance(
-                            for_op := op_in_module.parent_op(), scf.ForOp
-                        ):
+                        if (for_op := innermost_common_for(op_in_module, op_use.operation)) is not None:
                             assert isinstance(for_op.body.block.last_op, scf.YieldOp)
                             ops_to_sync.append(for_op.body.block.last_op)
 
                     if dispatch_to_compute(op_in_module, ctx) and not dispatch_to_compute(op_use.operation, ctx):
                         ops_to_sync.append(op_use.operation)
-                        if op_in_module.parent_op() == op_use.operation.parent_op() and isinstance(
-                            for_op := op_in_module.parent_op(), scf.ForOp
-                        ):
+                        if (for_op := innermost_common_for(op_in_module, op_use.operation)) is not None:
                             assert isinstance(for_op.body.block.last_op, scf.YieldOp)
                             ops_to_sync.append(for_op.body.block.last_op)
 
